@@ -59,7 +59,7 @@ def wire(name, runs_q, runs_t, **cfg):
 
 BATCHES = [
     # fault-free: whole-message delivery end to end (scripted clients and the real client code), valid handshakes
-    wire('fault-free (whole messages)', 800, 12000, mode='whole'),
+    wire('fault-free (whole messages)', 600, 12000, mode='whole'),
     # FakePGP against gpg (slow: real key generation; early so that it overlaps with the rest)
     wire('gpg-calibration', 2, 8, mode='gpg', tls=False),
     # ---- reproduction batches of the two genuine defects (silent once the proposed fixes are applied) ----
@@ -68,15 +68,15 @@ BATCHES = [
     wire('defect: client handshake under fragmentation', 150, 4000, mode='client', tls=False, steer_client_hs=False, defect=True),
     # ---- fault batches, steered clear of the two defects ----
     # every 2-chunk and 3-chunk delivery of short streams
-    wire('faults: enum every cut', 400, 12000, mode='enum'),
+    wire('faults: enum every cut', 320, 12000, mode='enum'),
     # handshake inputs x cuts
-    wire('faults: handshake inputs x cuts', 140, 6000, mode='hs', tls=False),
+    wire('faults: handshake inputs x cuts', 120, 6000, mode='hs', tls=False),
     # seeded chunkings of long streams
-    wire('faults: long streams', 1600, 40000, mode='long'),
+    wire('faults: long streams', 600, 15000, mode='long', chunkings=32),
     # SimConn: chunking, delay, coalescing, delivery order are chooser decisions
-    wire('faults: SimConn scripted clients', 1500, 50000, mode='net'),
+    wire('faults: SimConn scripted clients', 1200, 40000, mode='net'),
     # real client code under short reads
-    wire('faults: real clients, short reads', 1000, 40000, mode='client'),
+    wire('faults: real clients, short reads', 1000, 30000, mode='client'),
 ]
 if os.environ.get('VERIF_C14_SKIP_DEFECT_BATCHES'):
     BATCHES = [b for b in BATCHES if not b['cfg'].get('defect')]
@@ -88,7 +88,7 @@ PROPS = {
                 'failed_handshake_with_buffered_tail', 'closing_message', 'payload_ge_64k', 'flow_worker_done', 'flow_status_done',
                 'flow_db_done', 'flow_lock_done', 'flow_log_done', 'gpg_calibrated'],
         batches=BATCHES,
-        wall=dict(quick=100, thorough=1300),
+        wall=dict(quick=150, thorough=1300),
         assumptions=['Twisted stops reading as soon as a protocol calls transport.loseConnection (abstract.FileDescriptor): chunks '
                      'arriving later are never handed to dataReceived', 'legacy handshake decisions are those of a gpg key ring, modelled by '
                      'FakePGP and calibrated against gpg 2.2 in batch gpg-calibration', 'db.post backend and real TLS are not exercised'],
